@@ -38,6 +38,11 @@ Desc(body, hdr, ftr, sect, extra) == [body |-> body, hdr |-> hdr, ftr |-> ftr, s
 
 \* "CJK" is a multi-byte character (byte offsets and character offsets differ after it)
 T0 == <<"a","{","{","x","y","}","}","CJK","{","{","z","}","}","c">>
+\* further texts: placeholders adjacent and at both ends; the same variable twice; stray and unclosed braces
+T1 == <<"{","{","x","y","}","}","{","{","z","}","}">>
+T2 == <<"{","{","z","}","}","-","{","{","z","}","}">>
+T3 == <<"{","{","{","z","}","}","}","{","{","x","y">>
+TextOf_(id) == CASE id = "T0" -> T0 [] id = "T1" -> T1 [] id = "T2" -> T2 [] id = "T3" -> T3
 Nxy == <<"x","y">>
 Nz == <<"z">>
 AllPpr == <<"pStyle","numPr","pBdr","tabs","snapToGrid","spacing","ind","jc","keepNext","keepLines",
@@ -73,8 +78,11 @@ Nit == <<"i","t">>
 OneLoopPara == Plain(TkEach(Nit) \o TkVar(<<"n">>) \o EndEach)
 SmallFullTable == Tb(<< << <<Plain(<<"u">>)>>, <<Plain(<<"{","{","z","}","}">>)>> >> >>, TRUE)
 
+Bm == [k |-> "bm"]      \* a bookmarkStart/bookmarkEnd pair between the blocks of the body
+Shift(runs, n) == [i \in 1..Len(runs) |-> [runs[i] EXCEPT !.f = IF @ = 0 THEN 0 ELSE @ + n]]
 Frame(pl, fp) ==
-  CASE pl = "body" -> Desc(<<Plain(<<"s">>), fp, SmallFullTable>>, <<>>, <<>>, "full", FALSE)
+  CASE pl = "body" -> Desc(<<Plain(<<"s">>), Bm, fp, SmallFullTable>>, <<>>, <<>>, "full", FALSE)
+    [] pl = "bodyhf" -> Desc(<<Plain(<<"s">>), fp>>, Shift(fp.runs, 20), Shift(fp.runs, 10), "plain", TRUE)
     [] pl = "cell" -> Desc(<<Tb(<< << <<Plain(<<"h">>)>>, <<fp>> >>, << <<Plain(<<"k">>)>>, <<Plain(<<"m">>)>> >> >>, TRUE)>>,
                            <<>>, <<>>, "plain", FALSE)
     [] pl = "nested" -> Desc(<<Tb(<< << <<Plain(<<"h">>), Tb(<< << <<fp>> >> >>, FALSE)>> >> >>, FALSE)>>, <<>>, <<>>, "plain", FALSE)
@@ -88,6 +96,7 @@ Val(c) == CASE c = "plain" -> <<"V","1">>
             [] c = "xmlmeta" -> <<"p","<","&",">","\"","'","q">>
             [] c = "ctrl" -> <<"p","CTL","q">>
             [] c = "braces" -> <<"{","{","z","}","}">>
+            [] c = "dollar" -> <<"$","1","$","{","0","}">>
 Pair(n, v) == [n |-> n, v |-> v]
 ItList == <<[n |-> Nit, items |-> << <<Pair(<<"n">>, <<"Q">>)>> >>]>>
 Data(cls, vs, ls, is) == [cls |-> cls, vars |-> vs, lists |-> ls, imgs |-> is]
@@ -105,10 +114,10 @@ LoopData(maxItems) == {Data("loop", <<Pair(Nz, <<"W">>)>>,
 ImageData == {Data("image", <<Pair(Nz, <<"W">>)>>, <<>>, <<[n |-> <<"p">>, img |-> "img1"], [n |-> <<"q">>, img |-> "img2"]>>)}
 
 \* ---- families ----------------------------------------------------------------------------------
-HFOk(pl, runs) == pl \notin {"header", "footer"} \/ \A i \in 1..Len(runs) : runs[i].x # "drawing"
+HFOk(pl, runs) == pl \notin {"header", "footer", "bodyhf"} \/ \A i \in 1..Len(runs) : runs[i].x # "drawing"
 
 SegBases(p) ==
-  {Frame(pl, P(RunsOf(T0, cuts, fm), <<>>)) : cuts \in CutSets(Len(T0), p.lo, p.hi), fm \in p.fm, pl \in p.pl}
+  UNION {{Frame(pl, P(RunsOf(TextOf_(t), cuts, fm), <<>>)) : cuts \in CutSets(Len(TextOf_(t)), p.lo, p.hi), fm \in p.fm, pl \in p.pl} : t \in p.txt}
 
 ExtraCuts == {{}, {4}, {1, 7, 10}}
 ExtrasBases(p) ==
@@ -116,7 +125,7 @@ ExtrasBases(p) ==
      c \in {q \in ExtraCuts \X XRs \X (p.pl \ {"loopother"}) \X {<<>>, AllPpr} :
               /\ XROk(RunsOf(T0, q[1], "distinct"), q[2])
               /\ HFOk(q[3], WithExtra(RunsOf(T0, q[1], "distinct"), q[2]))
-              /\ (q[3] \in {"header", "footer"} => q[4] = <<>>)
+              /\ (q[3] \in {"header", "footer", "bodyhf"} => q[4] = <<>>)
               /\ (q[2] = "none" => q[4] # <<>>)}}
 
 \* loop table: header row (with a global variable), template row, footer row
@@ -146,27 +155,35 @@ ImageBodies ==
     <<Plain(ImgP), Plain(ImgQ), Plain(<<"e">> \o TkVar(Nz))>>,                                   \* two paragraphs
     <<Plain(<<"T"," ">> \o ImgP \o <<" ","U">>), Plain(ImgQ), Plain(<<"e">>)>>,                   \* text + second paragraph
     <<Plain(<<"T"," ">> \o ImgP \o <<" ","U">>), Tb(<< << <<Plain(ImgQ)>> >> >>, FALSE)>>,         \* text + table after
-    <<Plain(<<"T"," ">> \o ImgP \o <<" ","U">>), Plain(<<"m">>), Plain(<<"n">>), Plain(ImgQ)>> }   \* text + later paragraph
+    <<Plain(<<"T"," ">> \o ImgP \o <<" ","U">>), Plain(<<"m">>), Plain(<<"n">>), Plain(ImgQ)>>,   \* text + later paragraph
+    <<Bm, Plain(<<"T"," ">> \o ImgP \o <<" ","U">>), Bm, Plain(ImgQ), Plain(<<"e">>)>> }          \* with bookmarks in between
 ImageBases == {Desc(b, <<>>, <<>>, "plain", FALSE) : b \in ImageBodies}
 
 \* ---- plans ------------------------------------------------------------------------------------------
 \* a plan = [fam, lo, hi (number of cuts), fm (formatting modes), pl (placements), vias, cls (value classes),
 \*           pres (also the partial / absent data sets), items (loop: 0..items)]
-AllPl == {"body", "cell", "nested", "loopother", "header", "footer"}
-AllCls == {"plain", "empty", "xmlmeta", "ctrl", "braces"}
+AllPl == {"body", "cell", "nested", "loopother", "header", "footer", "bodyhf"}
+Texts == {"T0", "T1", "T2", "T3"}
+AllCls == {"plain", "empty", "xmlmeta", "ctrl", "braces", "dollar"}
 Plan(fam, lo, hi, fm, pl, vias, cls, pres, items) ==
-  [fam |-> fam, lo |-> lo, hi |-> hi, fm |-> fm, pl |-> pl, vias |-> vias, cls |-> cls, pres |-> pres, items |-> items]
+  [fam |-> fam, txt |-> {"T0"}, lo |-> lo, hi |-> hi, fm |-> fm, pl |-> pl, vias |-> vias, cls |-> cls, pres |-> pres, items |-> items]
 Seg(lo, hi, fm, pl, vias, cls, pres) == Plan("seg", lo, hi, fm, pl, vias, cls, pres, 0)
+SegT(txt, lo, hi, fm, pl, vias, cls, pres) == [Seg(lo, hi, fm, pl, vias, cls, pres) EXCEPT !.txt = txt]
 Others(vias, items, pl) == {Plan("extras", 0, 0, {"distinct"}, pl, vias, {"plain"}, TRUE, 0),
                         Plan("loop", 0, 0, {"distinct"}, {"body"}, vias, {"plain"}, TRUE, items),
                         Plan("image", 0, 0, {"distinct"}, {"body"}, vias, {"plain"}, TRUE, 0)}
 
 PlanQuick ==
-  { Seg(0, 2, {"distinct"}, AllPl, {"doc"}, {"plain"}, TRUE),                 \* every segmentation with <= 2 cuts, everywhere
+  { Seg(0, 2, {"distinct"}, AllPl, {"doc"}, {"plain"}, FALSE),                \* every segmentation with <= 2 cuts, everywhere
+    Seg(0, 2, {"distinct"}, {"body", "header"}, {"doc"}, {}, TRUE),           \* ... with partial / no data
+    Seg(0, 1, {"distinct"}, AllPl, {"doc"}, {}, TRUE),
     Seg(3, 3, {"distinct"}, {"body"}, {"doc"}, {"plain"}, FALSE),             \* every segmentation with 3 cuts
     Seg(0, 1, {"distinct"}, AllPl, {"doc"}, AllCls \ {"plain"}, FALSE),       \* value classes x placement
     Seg(1, 2, {"same", "alt", "none"}, {"body"}, {"doc"}, {"plain"}, FALSE),  \* runs that share / lack formatting
     Seg(0, 0, {"none"}, {"body", "header", "footer"}, {"doc"}, AllCls, TRUE), \* header/footer made by AddHeader/AddFooter
+    SegT(Texts \ {"T0"}, 0, 2, {"distinct"}, {"body"}, {"doc"}, {"plain"}, TRUE),             \* the other texts
+    SegT(Texts \ {"T0"}, 0, 2, {"distinct"}, {"header"}, {"doc"}, {"plain"}, FALSE),
+    SegT(Texts \ {"T0"}, 0, 1, {"distinct"}, AllPl, {"doc"}, {"plain", "braces"}, FALSE),
     Seg(0, 1, {"distinct"}, AllPl, {"open", "file"}, {"plain"}, FALSE) }      \* the other ways to make a template
   \cup Others({"doc", "file"}, 3, AllPl)
 PlanThorough ==
@@ -174,14 +191,18 @@ PlanThorough ==
     Seg(0, 2, {"distinct"}, AllPl, {"doc"}, AllCls \ {"plain"}, FALSE),
     Seg(1, 3, {"same", "alt", "none"}, {"body", "cell", "nested", "loopother"}, {"doc"}, {"plain"}, FALSE),
     Seg(0, 0, {"none"}, {"body", "header", "footer"}, {"doc", "file"}, AllCls, TRUE),
+    SegT(Texts \ {"T0"}, 0, 3, {"distinct"}, {"body", "cell", "header", "bodyhf"}, {"doc"}, {"plain"}, TRUE),
+    SegT(Texts \ {"T0"}, 0, 2, {"distinct", "alt"}, AllPl, {"doc"}, AllCls \ {"plain"}, FALSE),
     Seg(0, 2, {"distinct"}, AllPl, {"open", "file"}, {"plain", "xmlmeta"}, TRUE) }
   \cup Others({"doc", "open", "file"}, 3, AllPl)
 PlanSim ==
-  { Seg(1, 2, {"distinct", "alt"}, AllPl, {"doc", "open"}, AllCls, TRUE) } \cup Others({"doc", "open"}, 3, AllPl)
+  { SegT(Texts, 1, 1, {"distinct"}, AllPl, {"doc", "open"}, AllCls, TRUE) } \cup Others({"doc"}, 3, {"body", "cell", "header"})
 PlanMCQuick ==
-  { Seg(0, 1, {"distinct"}, {"body", "nested", "loopother", "header"}, {"doc"}, {"plain", "braces"}, TRUE) } \cup Others({"doc"}, 2, {"body"})
+  { Seg(0, 1, {"distinct"}, {"body", "nested", "loopother", "header"}, {"doc"}, {"plain", "braces"}, TRUE),
+    SegT({"T1", "T3"}, 0, 1, {"distinct"}, {"body"}, {"doc"}, {"plain"}, TRUE) } \cup Others({"doc"}, 2, {"body"})
 PlanMCThorough ==
-  { Seg(0, 2, {"distinct", "alt"}, AllPl, {"doc"}, AllCls, TRUE) } \cup Others({"doc"}, 3, AllPl)
+  { Seg(0, 2, {"distinct", "alt"}, AllPl, {"doc"}, AllCls, TRUE),
+    SegT(Texts \ {"T0"}, 0, 2, {"distinct"}, AllPl, {"doc"}, {"plain", "braces", "empty"}, TRUE) } \cup Others({"doc"}, 3, AllPl)
 
 BasesOf(p) == CASE p.fam = "seg" -> SegBases(p) [] p.fam = "extras" -> ExtrasBases(p) [] p.fam = "loop" -> LoopBases [] p.fam = "image" -> ImageBases
 DataOf(p) == CASE p.fam = "seg" -> SegData(p.cls, p.pres) [] p.fam = "extras" -> ExtrasData [] p.fam = "loop" -> LoopData(p.items) [] p.fam = "image" -> ImageData
@@ -211,6 +232,7 @@ RECURSIVE AbsBlocks(_)
 AbsBlocks(bs) ==
   [i \in 1..Len(bs) |->
      IF bs[i].k = "p" THEN AbsPara(bs[i])
+     ELSE IF bs[i].k = "bm" THEN [k |-> "other", n |-> "bookmark", v |-> "set"]
      ELSE [k |-> "tbl", tpr |-> IF bs[i].full THEN <<[n |-> "tblStyle", v |-> "set"]>> ELSE <<>>,
            rows |-> [r \in 1..Len(bs[i].rows) |->
                        [trpr |-> IF bs[i].full THEN <<[n |-> "cantSplit", v |-> "set"]>> ELSE <<>>,
@@ -248,7 +270,7 @@ Forms == {"inline", "split"}
 
 \* ---- the machines ------------------------------------------------------------------------------------
 NoData == Data("none", <<>>, <<>>, <<>>)
-NoPlan == Plan("", 0, 0, {}, {}, {}, {}, FALSE, 0)
+NoPlan == [Plan("", 0, 0, {}, {}, {}, {}, FALSE, 0) EXCEPT !.txt = {}]
 Init == st = [phase |-> "new", plan |-> NoPlan, base |-> NoDoc, d |-> NoData, out |-> NoDoc] /\ hist = <<>>
 
 MCBuild == /\ st.phase = "new"
